@@ -261,7 +261,12 @@ class Gen:
             return None
         self.rng.shuffle(pool)
         k = self.rng.choice([2, 2, 2, 3, 1, 0] if self.bad() else [2, 2, 2, 3])
-        return ['add_link', self.new_name('l', O.LINK), self.new_id('l'), self.rng.choice(LINK_TYPES), pool[:k]]
+        name = self.new_name('l', O.LINK)
+        top = [s for s in self.g.ids(O.NS) if not self.g.has_owner(s) and self.g.name(s)]
+        if len(top) >= 2 and self.rng.random() < 0.08 and 'strand' not in self.avoid:
+            a, b = self.rng.sample(top, 2)
+            name = self.g.name(a) + '-' + self.g.name(b) + '-link'     # the name peer(a, b) derives for its link
+        return ['add_link', name, self.new_id('l'), self.rng.choice(LINK_TYPES), pool[:k]]
 
     def op_remove_link(self):
         g = self.g
@@ -311,6 +316,13 @@ class Gen:
         if len(top) < 2:
             return None
         a, b = self.rng.sample(top, 2)
+        lnames = set(g.name(l) for l in g.ids(O.LINK))
+        taken = [(x, y) for x in top for y in top if x != y and g.name(x) and g.name(y)
+                 and (g.name(x) + '-' + g.name(y) + '-link') in lnames]
+        if taken and 'strand' not in self.avoid:
+            a, b = self.rng.choice(taken)        # the derived link name is in use (see op_add_link)
+        if self.rng.random() < 0.06 and 'strand' not in self.avoid:
+            b = a            # a service peered with itself
         return ['peer', a, b]
 
     def op_unpeer(self):
